@@ -137,3 +137,61 @@ def master(E, R, seedlen, testnet, prop):
     E.check_eq([m.depth, m.index, m.parent_fingerprint, m.testnet], [0, 0, b"\x00" * 4, testnet],
                "master depth/index/fingerprint zero, network as requested")
     return "valid"
+
+
+def leaf_only(E, R, L, public, via, testnet):
+    """object lifetime: the caller keeps nothing but the derived leaf (root and intermediate nodes are temporaries
+    that are garbage by the time the leaf is used).  The leaf's parent fingerprint and its extended-key strings must
+    still be the ones the specification defines -- they may not depend on an ancestor object being alive."""
+    import gc
+    k, kb = cm.sym_scalar(E, "k")
+    c = E.bytes("c", 32)
+    idxs = [E.bv("i%d" % j, 31 if public else 32) for j in range(L)]
+
+    def mk():
+        if public:
+            node = R.bip32.PubKeyNode(key=E.H.sec(k), chain_code=c, testnet=testnet)
+        else:
+            node = R.bip32.PrvKeyNode(key=kb, chain_code=c, testnet=testnet)
+        if via == "derive_path":
+            return node.derive_path(list(idxs))
+        for i in idxs:
+            node = node.ckd(i)
+        return node
+
+    leaf = E.run(mk)
+    gc.collect()
+    kk, cc = k, c
+    fpr = b"\x00" * 4
+    for j, i in enumerate(idxs):
+        ref = cm.ckd_priv(E, kk, cc, i)
+        if ref[0] == "invalid":
+            return "invalid@%d" % j
+        fpr = cm.fingerprint(E, kk)
+        kk, cc = ref
+    if isinstance(leaf, Raised):
+        if not public:
+            E.fail("leaf-only: derivation returns the node for a valid path")
+        return "raised"
+    lab = "leaf kept alone (ancestors garbage-collected): "
+    E.check_eq(leaf.key, E.H.sec(kk) if public else ser(kk, 32), lab + "key")
+    E.check_eq([leaf.chain_code, leaf.depth, leaf.index], [cc, L, idxs[-1]], lab + "chain code, depth, child number")
+    pf = E.run(lambda: leaf.parent_fingerprint)
+    E.check(not isinstance(pf, Raised), lab + "parent fingerprint available")
+    if not isinstance(pf, Raised):
+        E.check_eq(pf, fpr, lab + "parent fingerprint is that of the last parent")
+    net = "test" if testnet else "main"
+    xpub = E.run(leaf.extended_public_key)
+    if isinstance(xpub, Raised):
+        E.fail(lab + "xpub string payload")
+    else:
+        E.check_eq(cm.b58_payload(E, R, xpub), cm.xkey_payload(cm.XPUB[net], L, fpr, idxs[-1], cc, E.H.sec(kk)),
+                   lab + "xpub string payload")
+    if not public:
+        xprv = E.run(leaf.extended_private_key)
+        if isinstance(xprv, Raised):
+            E.fail(lab + "xprv string payload")
+        else:
+            E.check_eq(cm.b58_payload(E, R, xprv), cm.xkey_payload(cm.XPRV[net], L, fpr, idxs[-1], cc, b"\x00" + ser(kk, 32)),
+                       lab + "xprv string payload")
+    return "ok"
